@@ -35,9 +35,13 @@ CHAIN_KINDS = ["ref", "arr", "inl", "arrinl", "map", "oneof", "anyof", "allof"]
 
 
 def finalize(cases, results, tier, seed):
-    for r in results:
-        if r.get("tlc"):
-            return {"tlc": r["tlc"], "traces_accepted_by_model_environment": sum(1 for x in results if not x.get("tlc"))}
+    tl = [r["tlc"] for r in results if r.get("tlc")]
+    if tl:
+        # the first entry is the configuration of record (prefix-related names, MaxDepth 2); the others vary the depth limit and the name set
+        return {"tlc": dict(tl[0], further_configurations=tl[1:],
+                            total_states=sum(t["states"] or 0 for t in tl), total_edges=sum(t["edges"] or 0 for t in tl),
+                            total_distinct_edges_replayed_on_impl=sum(t["distinct_edges_replayed_on_impl"] or 0 for t in tl)),
+                "traces_accepted_by_model_environment": sum(1 for x in results if not x.get("tlc"))}
     return {}
 
 
@@ -75,7 +79,15 @@ def cases(tier, seed):
         for pos in ("property", "items", "additionalProperties", "allOf-member", "oneOf-member", "nested-property"):
             for where in ("component", "response", "requestBody", "parameter"):
                 out.append({"kind": "malformed", "bad": bad, "pos": pos, "where": where, "L": None})
-    out.append({"kind": "tlc", "names": ["User", "UserGroup", "UserGroupItem"], "max_depth": 2, "max_frames": 2 if tier == "quick" else 3, "L": None, "_timeout_s": 900 if tier == "quick" else 3600})
+    fr = 2 if tier == "quick" else 3
+    to = 900 if tier == "quick" else 3600
+    out.append({"kind": "tlc", "names": ["User", "UserGroup", "UserGroupItem"], "max_depth": 2, "max_frames": fr, "L": None, "_timeout_s": to})
+    # the same model under the other depth limits (1: every nested enter is cut; 3: never cut within the frame bound, cycles only) and under a
+    # name set with a neutral name and a synthetic-looking one that is nobody's prefix (the storage heuristics take their other branches)
+    out.append({"kind": "tlc", "names": ["User", "UserGroup", "UserGroupItem"], "max_depth": 1, "max_frames": fr, "L": None, "_timeout_s": to})
+    if tier != "quick":  # with 2 frames the limits 2 and 3 span the same graph
+        out.append({"kind": "tlc", "names": ["User", "UserGroup", "UserGroupItem"], "max_depth": 3, "max_frames": fr, "L": None, "_timeout_s": to})
+    out.append({"kind": "tlc", "names": ["Zed", "ZedProperty", "User"], "max_depth": 2, "max_frames": fr, "L": None, "_timeout_s": to})
     # long-running chain cases first (tail latency), then dedupe
     # hand-written shapes outside the edge alphabet: schemas that are nothing but a $ref (forwarding names) chained and in cycles; arrays of
     # arrays of primitives (2-D / 3-D), as property and as top-level schema
